@@ -488,8 +488,9 @@ Proof.
     exfalso. exact (HU eq_refl _ eq_refl eq_refl). }
   rewrite E2, E2'. change (ps_table (graft pins' rr' gen' p1)) with (ps_table p1).
   destruct (alookup key (ps_table p1)) as [f|]; [|reflexivity].
-  set (P3 := if is_final_response m1 then remove_transport tr host port _ p1 else p1).
-  assert (E3 : (if is_final_response m1 then remove_transport tr host port match tid with Ok (Some t) => t | _ => [] end (graft pins' rr' gen' p1)
+  set (hk := if fx_resolved_key (e_fx e) then match get_ip (e_cfg e) host with Some i => i | None => host end else host).
+  set (P3 := if is_final_response m1 then remove_transport tr hk port _ p1 else p1).
+  assert (E3 : (if is_final_response m1 then remove_transport tr hk port match tid with Ok (Some t) => t | _ => [] end (graft pins' rr' gen' p1)
                 else graft pins' rr' gen' p1) = graft pins' rr' gen' P3).
   { subst P3. destruct (is_final_response m1); [|reflexivity]. unfold remove_transport. cbv zeta.
     destruct (negb (supported_proto (to_lower tr))); reflexivity. }
@@ -1136,7 +1137,7 @@ Proof. vm_compute. reflexivity. Qed.
 (* before the repair of findClientTransport: 10.9.9.9 was learned through the UDP listener
    (first event), so the response for a TCP Via entry leaves as a DATAGRAM *)
 Definition legacy_udp : fixes :=
-  {| fx_wiring := true; fx_udp_via_listener := false; fx_indialog_invite := true; fx_bracket_host := true |}.
+  {| fx_wiring := true; fx_udp_via_listener := false; fx_indialog_invite := true; fx_bracket_host := true; fx_resolved_key := true |}.
 Definition evs_legacy : list event :=
   [EvUdp 0 (s2b "10.9.9.9") 5070 (ex_req ["Via: SIP/2.0/TCP 10.9.9.9:5070;branch=z9hG4bKabc"] "Route: <sip:10.0.0.2:5070;lr>");
    EvUdp 0 bk 5070 (ex_resp [own; "Via: SIP/2.0/TCP 10.9.9.9:5070;branch=z9hG4bKabc;received=10.9.9.9"])].
